@@ -41,7 +41,7 @@ package keystore
 // decoded only after every word was checked against the list
 //@ func SetWordList
 //@   assert-at mapupdate reverse-index-built-from-the-installed-list: key == list[#iter] && value == #iter
-//@   assert-at return#-1 only-after-all-words-of-the-list-were-indexed: true
+//@   assert-at return the-reverse-index-is-rebuilt-on-every-call: fresh(wordMap) && wordList == list
 //@ func MnemonicToByteArray
 //@   assert-at call IsMnemonicValid every-word-is-checked-against-the-list-before-decoding: arg0 == mnemonic
 //@   assert-at return#1 an-invalid-sentence-is-refused: !lastresult("IsMnemonicValid") && result0 == nil
